@@ -12,6 +12,7 @@ import (
 	"strings"
 	"time"
 
+	"github.com/markkurossi/mpc/circuit"
 	"github.com/markkurossi/mpc/ot"
 )
 
@@ -33,10 +34,13 @@ type c16Replay struct {
 }
 
 type fault struct {
-	dir  string // "g2e" or "e2g"
-	off  int
-	kind string // flip, replace, burst, trunc
-	mask byte
+	dir   string // "g2e" or "e2g"
+	off   int
+	kind  string // flip, replace, burst, trunc, pair, burstff
+	mask  byte
+	off2  int  // pair: second offset
+	count int  // burstff: length
+	must  bool // never sub-sampled
 }
 
 func (f fault) apply(g2e, e2g *fragQueue) {
@@ -54,6 +58,15 @@ func (f fault) apply(g2e, e2g *fragQueue) {
 		}
 	case "trunc":
 		q.truncAt = f.off
+	case "pair":
+		// the same mask on the same byte of two different labels
+		q.corrupt = map[int]byte{f.off: f.mask, f.off2: f.mask}
+	case "burstff":
+		// constant-mask burst spanning several labels
+		q.corrupt = map[int]byte{}
+		for k := 0; k < f.count; k++ {
+			q.corrupt[f.off+k] = f.mask
+		}
 	}
 }
 
@@ -224,28 +237,71 @@ func c16Child(c *Ctx) error {
 		// fault list: every byte position of both directions (sampled to the budget)
 		var faults []fault
 		for off := 0; off < lg; off++ {
-			faults = append(faults, fault{"g2e", off, "flip", 1 << uint(off%8)})
+			faults = append(faults, fault{dir: "g2e", off: off, kind: "flip", mask: 1 << uint(off%8)})
 		}
 		for off := 0; off < le; off++ {
-			faults = append(faults, fault{"e2g", off, "flip", 1 << uint(off%8)})
+			faults = append(faults, fault{dir: "e2g", off: off, kind: "flip", mask: 1 << uint(off%8)})
 		}
 		for off := 0; off < lg; off += 3 {
-			faults = append(faults, fault{"g2e", off, "replace", 0xff})
+			faults = append(faults, fault{dir: "g2e", off: off, kind: "replace", mask: 0xff})
 		}
 		for off := 0; off < le; off += 3 {
-			faults = append(faults, fault{"e2g", off, "replace", 0xff})
+			faults = append(faults, fault{dir: "e2g", off: off, kind: "replace", mask: 0xff})
 		}
 		for off := 0; off+8 <= lg; off += 7 {
-			faults = append(faults, fault{"g2e", off, "burst", 0})
+			faults = append(faults, fault{dir: "g2e", off: off, kind: "burst", mask: 0})
 		}
 		for off := 0; off+8 <= le; off += 7 {
-			faults = append(faults, fault{"e2g", off, "burst", 0})
+			faults = append(faults, fault{dir: "e2g", off: off, kind: "burst", mask: 0})
 		}
 		for off := 0; off < lg; off += 11 {
-			faults = append(faults, fault{"g2e", off, "trunc", 0})
+			faults = append(faults, fault{dir: "g2e", off: off, kind: "trunc", mask: 0})
 		}
 		for off := 0; off < le; off += 11 {
-			faults = append(faults, fault{"e2g", off, "trunc", 0})
+			faults = append(faults, fault{dir: "e2g", off: off, kind: "trunc", mask: 0})
+		}
+		// multi-label faults whose masks could cancel in a combined check: the same mask
+		// on the same byte of two labels, and constant bursts covering 2 or 4 labels —
+		// on the returned output labels (e2g tail) and on the garbler's input labels (g2e)
+		tail0 := le - 16*no
+		inOff := 4 + 32 + 4
+		for _, g := range circ.Gates {
+			switch g.Op {
+			case circuit.AND:
+				inOff += 4 + 32
+			case circuit.OR:
+				inOff += 4 + 48
+			case circuit.INV:
+				inOff += 4 + 16
+			default:
+				inOff += 4
+			}
+		}
+		regions := []struct {
+			dir    string
+			base   int
+			labels int
+		}{{"e2g", tail0, no}, {"g2e", inOff, n0}}
+		for _, rg := range regions {
+			for i := 0; i < rg.labels; i++ {
+				for j := i + 1; j < rg.labels; j++ {
+					for _, k := range []int{0, 7, 15} {
+						for _, m := range []byte{0x80, 0x01, 0xff} {
+							faults = append(faults, fault{dir: rg.dir, off: rg.base + 16*i + k, off2: rg.base + 16*j + k, kind: "pair", mask: m, must: true})
+						}
+					}
+				}
+			}
+			for _, cnt := range []int{32, 64} {
+				for off := rg.base - 8; off+cnt <= rg.base+16*rg.labels+8; off += 5 {
+					if off < 0 {
+						continue
+					}
+					for _, m := range []byte{0xff, 0x80} {
+						faults = append(faults, fault{dir: rg.dir, off: off, kind: "burstff", mask: m, count: cnt, must: true})
+					}
+				}
+			}
 		}
 		// always include all positions of the returned output labels and of the result message
 		step := 1
@@ -256,7 +312,7 @@ func c16Child(c *Ctx) error {
 		dims, gs := CircuitSX(circ)
 		for fi, f := range faults {
 			inTail := f.dir == "e2g" && f.off >= tail-8
-			if fi%step != 0 && !inTail {
+			if fi%step != 0 && !inTail && !f.must {
 				continue
 			}
 			if fi < startAt {
@@ -287,6 +343,9 @@ func c16Child(c *Ctx) error {
 			// correspondence: only when the garbler reached its decode loop with an
 			// intact e2g prefix (fault in g2e, or in the returned-labels tail of e2g)
 			e2gPrefixIntact := f.dir == "g2e" || (f.off >= tail && f.kind != "trunc")
+			if f.kind == "burstff" && f.dir == "e2g" && f.off < tail {
+				e2gPrefixIntact = false
+			}
 			dl := res.e2gDelivered
 			if !e2gPrefixIntact || res.stalled || len(dl) < le || len(res.g2eDelivered) < 36 {
 				emit()
